@@ -387,15 +387,85 @@ func isNilIdent(e ast.Expr) bool {
 	return ok && id.Name == "nil"
 }
 
-func (a *smAn) str(e ast.Expr) string { return types.ExprString(e) }
+func (a *smAn) str(e ast.Expr) string { return types.ExprString(a.constLits(e, 0)) }
+
+// constLit: an identifier (or pkg.Name) that names a constant of a predeclared type — `fileScheme` for "file", `maxPort`
+// for 65535 — reads as its value; constants of the module's own named types (states, error types) keep their names.
+func (a *smAn) constLit(e ast.Expr) (ast.Expr, bool) {
+	var id *ast.Ident
+	switch x := e.(type) {
+	case *ast.Ident:
+		id = x
+	case *ast.SelectorExpr:
+		if _, isPkg := a.info.Uses[identOf(x.X)].(*types.PkgName); isPkg {
+			id = x.Sel
+		}
+	}
+	if id == nil || a.info == nil {
+		return nil, false
+	}
+	k, ok := a.info.Uses[id].(*types.Const)
+	if !ok || k.Pkg() == nil || !strings.HasPrefix(k.Pkg().Path(), core.ModPath) {
+		return nil, false
+	}
+	if _, isBasic := k.Type().(*types.Basic); !isBasic {
+		return nil, false
+	}
+	switch k.Val().Kind() {
+	case constant.String:
+		return &ast.BasicLit{Kind: token.STRING, Value: k.Val().ExactString()}, true
+	case constant.Int:
+		return &ast.BasicLit{Kind: token.INT, Value: k.Val().ExactString()}, true
+	}
+	return nil, false
+}
+
+func identOf(e ast.Expr) *ast.Ident {
+	id, _ := e.(*ast.Ident)
+	return id
+}
+
+// constLits copies e with the constants of constLit written out.
+func (a *smAn) constLits(e ast.Expr, depth int) ast.Expr {
+	if e == nil || depth > 8 {
+		return e
+	}
+	if l, ok := a.constLit(e); ok {
+		return l
+	}
+	switch x := e.(type) {
+	case *ast.ParenExpr:
+		return &ast.ParenExpr{X: a.constLits(x.X, depth+1)}
+	case *ast.UnaryExpr:
+		return &ast.UnaryExpr{Op: x.Op, X: a.constLits(x.X, depth+1)}
+	case *ast.StarExpr:
+		return &ast.StarExpr{X: a.constLits(x.X, depth+1)}
+	case *ast.BinaryExpr:
+		return &ast.BinaryExpr{X: a.constLits(x.X, depth+1), Op: x.Op, Y: a.constLits(x.Y, depth+1)}
+	case *ast.SelectorExpr:
+		return &ast.SelectorExpr{X: a.constLits(x.X, depth+1), Sel: x.Sel}
+	case *ast.IndexExpr:
+		return &ast.IndexExpr{X: a.constLits(x.X, depth+1), Index: a.constLits(x.Index, depth+1)}
+	case *ast.CallExpr:
+		n := &ast.CallExpr{Fun: x.Fun, Ellipsis: x.Ellipsis}
+		if sel, ok := x.Fun.(*ast.SelectorExpr); ok {
+			n.Fun = &ast.SelectorExpr{X: a.constLits(sel.X, depth+1), Sel: sel.Sel}
+		}
+		for _, arg := range x.Args {
+			n.Args = append(n.Args, a.constLits(arg, depth+1))
+		}
+		return n
+	}
+	return e
+}
 
 // key renders a condition with single-assignment locals replaced by their (still valid) definitions, so that
 // `newScheme == "file"` after `newScheme := buffer.String()` reads `buffer.String() == "file"`.
 func (a *smAn) key(e ast.Expr, s *pst) string {
 	if s == nil || len(s.defs) == 0 {
-		return types.ExprString(e)
+		return types.ExprString(a.constLits(e, 0))
 	}
-	return types.ExprString(a.subst(e, s, 0))
+	return types.ExprString(a.constLits(a.subst(e, s, 0), 0))
 }
 
 func (a *smAn) subst(e ast.Expr, s *pst, depth int) ast.Expr {
